@@ -1,0 +1,112 @@
+//go:build verif
+
+// Contracts for package mustache/parsers (comment-only; read by /verif's VC generator).
+package parsers
+
+//@ func NewMustacheToken
+//@   ensures[C10] fresh(result) && result != nil && result.typ == typ && result.value == value && result.line == line && result.column == column && len(result.tokens) == 0 && cap(result.tokens) == 0
+//@   assigns nothing
+//@   nopanic
+//@ func (c *MustacheToken) Type
+//@   requires c != nil
+//@   ensures result == c.typ
+//@   assigns nothing
+//@   nopanic
+//@ func (c *MustacheToken) Value
+//@   requires c != nil
+//@   ensures result == c.value
+//@   assigns nothing
+//@   nopanic
+//@ func (c *MustacheToken) Tokens
+//@   requires c != nil
+//@   ensures result == c.tokens
+//@   assigns nothing
+//@   nopanic
+//@ func (c *MustacheToken) SetTokens
+//@   requires c != nil
+//@   ensures c.tokens == tokens
+//@   assigns c.tokens
+//@   nopanic
+//@ func (c *MustacheToken) Line
+//@   requires c != nil
+//@   ensures result == c.line
+//@   assigns nothing
+//@   nopanic
+//@ func (c *MustacheToken) Column
+//@   requires c != nil
+//@   ensures result == c.column
+//@   assigns nothing
+//@   nopanic
+//
+// ---- the parser's cursor over the classified tokens -------------------------------------------------------------
+//@ pred mIdx(c *MustacheParser) = c != nil && 0 <= c.currentTokenIndex && c.currentTokenIndex <= len(c.initialTokens)
+//@ pred mInv(c *MustacheParser) = mIdx(c) && (forall i int :: 0 <= i && i < len(c.initialTokens) ==> c.initialTokens[i] != nil && allocated(c.initialTokens[i]))
+// the classified token list is not touched by the syntax analysis
+//@ pred mSame(c *MustacheParser) = c.initialTokens == old(c.initialTokens) && elems(c.initialTokens) == old(elems(c.initialTokens))
+//
+//@ func (c *MustacheParser) hasMoreTokens
+//@   requires c != nil
+//@   ensures result == (c.currentTokenIndex < len(c.initialTokens))
+//@   assigns nothing
+//@   nopanic
+//@ func (c *MustacheParser) checkForMoreTokens
+//@   requires c != nil
+//@   ensures[C10] (result == nil) == (c.currentTokenIndex < len(c.initialTokens))
+//@   assigns nothing
+//@   nopanic
+//@ func (c *MustacheParser) getCurrentToken
+//@   requires c != nil && 0 <= c.currentTokenIndex
+//@   ensures result == (c.currentTokenIndex < len(c.initialTokens) ? c.initialTokens[c.currentTokenIndex] : nil)
+//@   assigns nothing
+//@   nopanic
+//@ func (c *MustacheParser) getNextToken
+//@   requires c != nil && 0 <= c.currentTokenIndex && c.currentTokenIndex <= len(c.initialTokens)
+//@   ensures result == (c.currentTokenIndex + 1 < len(c.initialTokens) ? c.initialTokens[c.currentTokenIndex + 1] : nil)
+//@   assigns nothing
+//@   nopanic
+//@ func (c *MustacheParser) moveToNextToken
+//@   requires c != nil && c.currentTokenIndex <= len(c.initialTokens)
+//@   ensures c.currentTokenIndex == old(c.currentTokenIndex) + 1
+//@   assigns c.currentTokenIndex
+//@   nopanic
+//@ func (c *MustacheParser) addTokenToResult
+//@   requires c != nil
+//@   ensures[C10] fresh(result) && result != nil && result.typ == typ && result.value == value && len(result.tokens) == 0 && cap(result.tokens) == 0
+//@   ensures[C10] len(c.resultTokens) == old(len(c.resultTokens)) + 1 && c.resultTokens[len(c.resultTokens) - 1] == result
+//@   ensures arr(c.resultTokens) == old(arr(c.resultTokens)) || fresh(c.resultTokens)
+//@   assigns c.resultTokens, c.resultTokens[*]
+//@   nopanic
+//
+// ---- syntax analysis (C03, C10): sections nest; a section end that closes nothing, or a section that is still open at
+// the end of the template, is an error; never a panic; terminates (measure: tokens left)
+//@ func (c *MustacheParser) performSyntaxAnalysis
+//@   requires mInv(c) && arr(c.resultTokens) != arr(c.initialTokens)
+//@   ensures[C03,C10] mIdx(c) && mSame(c)
+//@   ensures[C10] result == nil ==> c.currentTokenIndex == len(c.initialTokens)
+//@   assigns c.currentTokenIndex, c.resultTokens, c.resultTokens[*]
+//@   nopanic
+//@   recgroup mparser
+//@   decreases len(c.initialTokens) - c.currentTokenIndex, 1
+//@   loop 0
+//@     invariant mIdx(c) && mSame(c) && arr(c.resultTokens) != arr(c.initialTokens) && c.currentTokenIndex >= old(c.currentTokenIndex)
+//@     invariant arr(c.resultTokens) == old(arr(c.resultTokens)) || fresh(c.resultTokens)
+//@     decreases len(c.initialTokens) - c.currentTokenIndex
+//
+// "an unclosed ... section [is] rejected with an error": the only successful return is at the matching section end
+//@ func (c *MustacheParser) performSyntaxAnalysisForSection
+//@   requires mInv(c)
+//@   ensures[C03,C10] mIdx(c) && mSame(c) && (result1 != nil ==> len(result0) == 0)
+//@   ensures[C10] result1 == nil ==> c.currentTokenIndex > old(c.currentTokenIndex) && c.initialTokens[c.currentTokenIndex - 1].typ == TokenSectionEnd &&
+//@       (c.initialTokens[c.currentTokenIndex - 1].value == variable || c.initialTokens[c.currentTokenIndex - 1].value == "")
+//@   ensures[C10] c.currentTokenIndex >= old(c.currentTokenIndex)
+//@   ensures[C10] forall i int :: 0 <= i && i < len(result0) ==> result0[i] != nil
+//@   ensures[C10] len(result0) == 0 || fresh(result0)
+//@   assigns c.currentTokenIndex
+//@   nopanic
+//@   recgroup mparser
+//@   decreases len(c.initialTokens) - c.currentTokenIndex, 0
+//@   loop 0
+//@     invariant mIdx(c) && mSame(c) && c.currentTokenIndex >= old(c.currentTokenIndex)
+//@     invariant forall i int :: 0 <= i && i < len(result) ==> result[i] != nil
+//@     invariant fresh(result)
+//@     decreases len(c.initialTokens) - c.currentTokenIndex
